@@ -334,6 +334,19 @@ where
     {
         let (_, max_len) = self.size_hint();
 
+        // When called from the only thread of a pool there is no parallelism
+        // to exploit, and if that pool is the global one the mapping tasks
+        // (which the feeder thread spawns into the global pool) could never
+        // run while this thread blocks waiting for their results
+        if rayon::current_thread_index().is_some() && rayon::current_num_threads() == 1 {
+            let mut init = map_init;
+            let mut acc = fold_init;
+            for val in self {
+                acc = fold(acc, map(&mut init, val));
+            }
+            return acc;
+        }
+
         let mut num_scoped_threads = rayon::current_num_threads();
         if let Some(max_len) = max_len {
             num_scoped_threads = num_scoped_threads.min(max_len);
